@@ -33,7 +33,9 @@ EXTENDS Naturals, Sequences, FiniteSets, TLC, ServerProps
 CONSTANTS NF,          \* number of faulty clients (they arrive in index order)
           Fixes,       \* subset of AllFixes that is in force
           PlanSet,     \* fault plans [req, step, mode] a faulty client may follow
-          LateAfter    \* TRUE: the late healthy client arrives only after every faulty client has vanished (replay shape)
+          LateAfter,   \* TRUE: the late healthy client arrives only after every faulty client has vanished (replay shape)
+          StepSend     \* FALSE: a client's writes up to its next read are one step (TCP buffers them; the reduction used
+                       \* everywhere); TRUE: they arrive piecewise (unreduced; the driver checks that the outcomes are the same)
 
 AllFixes == {"hdr", "ctx", "peer", "accept", "info"}
 Faulty  == 1..NF
@@ -89,9 +91,17 @@ Arrive(c) ==
       THEN /\ cpc' = [cpc EXCEPT ![c] = "refused"]
            /\ UNCHANGED <<dsent, backlog>>
       ELSE /\ backlog' = Append(backlog, c)
-           /\ dsent' = [dsent EXCEPT ![c] = SentFor(plan[c].step)]      \* TCP buffers the writes: they never block
+           /\ dsent' = [dsent EXCEPT ![c] = IF StepSend THEN "none" ELSE SentFor(plan[c].step)]   \* TCP buffers the writes: they never block
            /\ cpc' = [cpc EXCEPT ![c] = IF plan[c].step \in EarlySteps THEN "closing" ELSE "waitaddr"]
    /\ UNCHANGED <<plan, dopen, cst, copen, addrSent, infoSent, replySent, spc, cur, inctx, children, backend, ctxs, orphans, hOK>>
+
+\* unreduced variant: the bytes reach the server piece by piece
+NextStage(d) == CASE d = "none" -> "parthdr" [] d = "parthdr" -> "hdr" [] d = "hdr" -> "partpay" [] OTHER -> "pay"
+SendMore(c) ==
+   /\ StepSend /\ cpc[c] \in {"closing", "waitaddr"} /\ dopen[c] = "open"
+   /\ dsent[c] # SentFor(plan[c].step)
+   /\ dsent' = [dsent EXCEPT ![c] = NextStage(@)]
+   /\ UNCHANGED <<plan, cpc, dopen, cst, copen, addrSent, infoSent, replySent, backlog, spc, cur, inctx, children, backend, ctxs, orphans, hOK>>
 
 ReadAddr(c) ==
    /\ cpc[c] = "waitaddr" /\ addrSent[c]
@@ -117,7 +127,7 @@ RoundTrip(c) ==
 
 \* faults: the two connections of a vanishing client close independently (FIN or RST as planned)
 CloseData(c) ==
-   /\ cpc[c] = "closing" /\ dopen[c] = "open"
+   /\ cpc[c] = "closing" /\ dopen[c] = "open" /\ dsent[c] = SentFor(plan[c].step)
    /\ dopen' = [dopen EXCEPT ![c] = plan[c].mode]
    /\ UNCHANGED <<plan, cpc, dsent, cst, copen, addrSent, infoSent, replySent, backlog, spc, cur, inctx, children, backend, ctxs, orphans, hOK>>
 CloseCtrl(c) ==
@@ -153,7 +163,7 @@ SHeader ==
       THEN /\ hOK' = hOK
            /\ CASE plan[cur].req = "worker"     -> spc' = "pay" /\ UNCHANGED <<cur, inctx>>
                 [] plan[cur].req = "ctxworker"  -> IF 1 \in ctxs THEN spc' = "pay" /\ inctx' = TRUE /\ cur' = cur ELSE Cont
-                [] plan[cur].req = "uctxworker" -> Cont      \* unknown context: `continue` - no reply, socket left open
+                [] plan[cur].req = "uctxworker" -> Cont      \* unknown context: `continue` without a reply (since 6c35f4a the socket is closed first)
                 [] OTHER                        -> spc' = "cpay" /\ UNCHANGED <<cur, inctx>>
       ELSE /\ dopen[cur] # "open"          \* otherwise blocked in recv()
            /\ Fail("hdr")
@@ -235,7 +245,7 @@ SCtxReply ==
    /\ UNCHANGED <<plan, cpc, dsent, dopen, cst, copen, addrSent, infoSent, backlog, children, backend, ctxs, orphans>>
 
 ServerStep == SAccept \/ SHeader \/ SPayload \/ S3a \/ S3b \/ S3c \/ S3d \/ S3e \/ S3f \/ S3g \/ SCtxPayload \/ SCtxReply
-ClientStep == \E c \in Clients : Arrive(c) \/ ReadAddr(c) \/ ConnectCtrl(c) \/ ReadInfo(c) \/ RoundTrip(c)
+ClientStep == \E c \in Clients : Arrive(c) \/ SendMore(c) \/ ReadAddr(c) \/ ConnectCtrl(c) \/ ReadInfo(c) \/ RoundTrip(c)
 FaultStep  == \E c \in Faulty : CloseData(c) \/ CloseCtrl(c)
 Next == ServerStep \/ ClientStep \/ FaultStep \/ (\E c \in Clients : BackendStart(c))
 \* every step makes progress (the graph is acyclic), so weak fairness of Next = every party keeps going
